@@ -39,22 +39,40 @@ Proof. exact merge_args_fewer. Qed.
 Theorem C05_merge_more : forall d e, (length d <= length (e_args e))%nat -> merge_args d e = map fresh (e_args e).
 Proof. exact merge_args_more. Qed.
 
-(* parent side: for EVERY history of enqueue / next_result / close / wait / call, the values
-   handed out are a prefix, in order, of the results of the accepted enqueues, and result
-   after wait() is their number; enqueue after close/death is refused; call(x) with nothing
-   outstanding returns the value for x. *)
-Theorem C05_parent_history : forall g ops,
-  let '(vs, acc, sf) := trace g (mkP [] false false O) ops in
+(* parent side: for EVERY history of enqueue / next_result / close / wait / call - and of inputs on which the target raises, so that
+   the worker dies on its own - the values handed out are a prefix, in order, of the results of the accepted enqueues, and result
+   after wait() is their number; enqueue after close/death is refused; call(x) with nothing outstanding returns the value for x.
+   [gd] is what `enqueue` looks at before it accepts an input; the three generated guards are good. *)
+Theorem C05_generated_guards_are_good :
+  guard_good enq_guard_thread = true /\ guard_good enq_guard_process = true /\ guard_good enq_guard_remote = true.
+Proof. repeat split; reflexivity. Qed.
+
+Theorem C05_parent_history : forall gd g ops, guard_good gd = true ->
+  let '(vs, acc, sf) := trace gd g pst0 ops in
   vs = firstn (length vs) (map g acc) /\ n_enq sf = length acc.
-Proof. exact delivered_is_prefix. Qed.
+Proof. intros gd g ops H. exact (delivered_is_prefix gd g H ops). Qed.
 
-Theorem C05_enqueue_after_close : forall g s e,
-  p_closed s = true \/ p_dead s = true -> snd (pstep g s (PEnq e)) = OClosedErr.
-Proof. exact enqueue_after_close. Qed.
+Theorem C05_enqueue_after_close : forall gd g s e, guard_good gd = true ->
+  p_closed s = true \/ p_dead s = true -> snd (pstep gd g s (PEnq e)) = OClosedErr.
+Proof. intros gd g s e H. exact (enqueue_after_close gd g H s e). Qed.
 
-Theorem C05_call_returns_own_value : forall g s e,
-  unread s = [] -> p_closed s = false -> p_dead s = false -> snd (pstep g s (PCall e)) = OVal (g e).
-Proof. exact call_no_outstanding. Qed.
+(* ... also when the enqueue is the very first thing done with the worker after it died on its own *)
+Theorem C05_enqueue_first_thing_after_death : forall gd g s e, guard_good gd = true ->
+  refused gd s = false -> snd (pstep gd g (fst (pstep gd g s PDie)) (PEnq e)) = OClosedErr.
+Proof. intros gd g s e H. exact (enqueue_first_thing_after_death gd g H s e). Qed.
+
+(* a guard that consults only what the parent object remembers (`_closed`, the cached `_dead`) instead of asking accepts an input for a
+   worker that died a while ago: the input is never processed, accepted enqueues and delivered results no longer agree *)
+Theorem C05_refuted_if_enqueue_trusts_the_cached_flag : exists g,
+  prun (mkGuard false true true) g pst0 [PDie; PEnq (mkEnq [10] [])] = [OOk; OOk].
+Proof. exists (fun _ => 0). vm_compute. reflexivity. Qed.
+
+Theorem C05_call_returns_own_value : forall gd g s e, guard_good gd = true -> consistent s ->
+  unread s = [] -> p_closed s = false -> p_dead s = false -> snd (pstep gd g s (PCall e)) = OVal (g e).
+Proof. intros gd g s e H. exact (call_no_outstanding gd g H s e). Qed.
+
+Theorem C05_reachable_states_are_consistent : forall gd g s o, consistent s -> consistent (fst (pstep gd g s o)).
+Proof. intros gd g s o. exact (pstep_consistent gd g s o). Qed.
 
 (* non-vacuity, with tuple defaults and a mutating target *)
 Example C05_example :
@@ -71,4 +89,8 @@ Print Assumptions C05_merge_fewer.
 Print Assumptions C05_merge_more.
 Print Assumptions C05_parent_history.
 Print Assumptions C05_enqueue_after_close.
+Print Assumptions C05_generated_guards_are_good.
+Print Assumptions C05_enqueue_first_thing_after_death.
+Print Assumptions C05_refuted_if_enqueue_trusts_the_cached_flag.
+Print Assumptions C05_reachable_states_are_consistent.
 Print Assumptions C05_call_returns_own_value.
